@@ -1,11 +1,17 @@
 (* C10 -- SBML export is valid and import(export(model)) is the same model.
    Modelled (coq/theories/IO/SbmlId.v): the identifier codec _f_*_rev / _f_*, the choice of flux-bound
    parameters (_create_bound), the reader's application of bounds, the reactant/product split.
-   libsbml (document model, XML, validator, gene association parser) is trusted and exercised by
-   harness/c10.py; the document-level theorem sbml_doc_roundtrip and gpr_assoc_roundtrip of DESIGN.md are
-   NOT proved (monitored only: full observation before/after, gene rules as truth tables). *)
-From Coq Require Import ZArith QArith List Bool.
-From Cobra.IO Require Import Str JVal DictModel SbmlId SbmlProofs SbmlCheck.
+   Document level (coq/theories/IO/SbmlDoc.v): the document _model_to_sbml writes, as data, with executable
+   write_doc / read_doc mirroring the Python; C10_gpr_assoc_roundtrip (every rule tree) and
+   C10_sbml_doc_roundtrip (every model inside the boolean side condition sbml_ok, each conjunct of which is
+   shown necessary in IO/SbmlDocNecessity.v).  libsbml is represented by its observable effect on the
+   modelled data (SId syntax check of setId, unset attribute = "", 15 significant digits, normal form of the
+   association tree); harness/c10.py compares write_doc / read_doc with the document cobrapy wrote and the
+   model it read back on every run.  The validator itself is exercised, not modelled. *)
+From Coq Require Import ZArith QArith List Bool String.
+From Cobra.IO Require Import Str JVal DictModel SbmlId SbmlProofs SbmlNum SbmlDoc SbmlGpr SbmlDocLemmas SbmlDocProofs
+  SbmlDocIdentity SbmlCheck SbmlDocNecessity.
+From Cobra.GPR Require Syntax.
 From Cobra.Gen Require Import Config SbmlTables.
 Import ListNotations.
 Open Scope Z_scope.
@@ -79,3 +85,90 @@ Example C10_sid_ok_examples :
   f_rev to_dec sb_prefix_reaction [69; 88; 95; 97; 40; 101; 41] =
     [82; 95; 69; 88; 95; 97; 95; 95; 52; 48; 95; 95; 101; 95; 95; 52; 49; 95; 95].
 Proof. vm_compute. split; reflexivity. Qed.
+
+(* ------------------------------------------------------------------ gene product associations *)
+(* for every rule tree t: if it has an operator without operands nothing is written; otherwise what is read back
+   from the written fbc:and / fbc:or / fbc:geneProductRef tree is assoc_norm t (single-child operators dropped,
+   nested operators of the same kind merged) with the original gene ids, provided these survive the id codec
+   and GPRCleaner; and assoc_norm t is the same Boolean function as t on every knockout set *)
+Theorem C10_gpr_assoc_roundtrip : forall dec undec clean E t,
+  (Syntax.wf t = false -> write_assoc dec E t = None) /\
+  (Syntax.wf t = true ->
+   (forall g, In g (Syntax.genes t) -> clean (dec_g undec E (enc_g dec E g)) = g) ->
+   option_map (read_assoc undec clean E) (write_assoc dec E t) = Some (assoc_norm t)) /\
+  (forall K, Syntax.eval K (assoc_norm t) = Syntax.eval K t).
+Proof. exact gpr_assoc_roundtrip. Qed.
+Print Assumptions C10_gpr_assoc_roundtrip.
+
+Theorem C10_gene_roundtrip :
+  forall dec undec, (forall c, undec (dec c) = c) -> (forall c, dec c <> [] /\ forallb is_digit (dec c) = true) ->
+  forall dot p s, sid_ok p s = true -> contains dot (p ++ escape dec s) = false ->
+  f_gene undec dot p (f_gene_rev dec dot p s) = s.
+Proof. exact gene_roundtrip. Qed.
+Print Assumptions C10_gene_roundtrip.
+
+(* ------------------------------------------------------------------ the document *)
+(* "read_sbml_model(write_sbml_model(m)) is the same model", unrestricted -- FALSE (SbmlDocNecessity.v) *)
+Definition sbml_doc_roundtrip_statement : Prop :=
+  forall c m, roundtrip to_dec parse_dec wnum15 cur_clean cur_env c m = Ok (norm to_dec cur_env m).
+
+(* for every decimal printer/parser with the two properties of str(int)/int(str), every number writer wnum,
+   every GPRCleaner function, every table of constants with env_ok: a model inside sbml_ok comes back as norm m *)
+Theorem C10_sbml_doc_roundtrip :
+  forall dec undec wnum clean E,
+  (forall c, undec (dec c) = c) -> (forall c, dec c <> [] /\ forallb is_digit (dec c) = true) -> env_ok E = true ->
+  forall c m, sbml_ok dec wnum clean E c m = true -> roundtrip dec undec wnum clean E c m = Ok (norm dec E m).
+Proof. exact sbml_doc_roundtrip. Qed.
+Print Assumptions C10_sbml_doc_roundtrip.
+
+(* the property as stated -- the same model on every field the document carries -- for models that are already in
+   the form one trip produces (sbml_canon: a boolean test; what it asks is listed in IO/SbmlDocIdentity.v) *)
+Theorem C10_sbml_doc_identity :
+  forall dec undec wnum clean E,
+  (forall c, undec (dec c) = c) -> (forall c, dec c <> [] /\ forallb is_digit (dec c) = true) -> env_ok E = true ->
+  forall c m, sbml_ok dec wnum clean E c m = true -> sbml_canon m = true ->
+  roundtrip dec undec wnum clean E c m = Ok (forget m).
+Proof. exact sbml_doc_identity. Qed.
+Print Assumptions C10_sbml_doc_identity.
+
+(* non-vacuity of sbml_canon: the model that comes back from the witness below satisfies both conditions *)
+Example C10_sbml_canon_witness :
+  sbml_ok to_dec wnum15 cur_clean cur_env cfg0 (NORM witness) = true /\ sbml_canon (NORM witness) = true /\
+  NORM witness <> forget witness.
+Proof. vm_compute. repeat split; try reflexivity. discriminate. Qed.
+
+(* the constants regenerated from the source satisfy env_ok *)
+Example C10_env_ok_current : env_ok cur_env = true.
+Proof. exact env_ok_current. Qed.
+
+(* non-vacuity: five reactions (unbounded, default, own, half-open bounds), nested rules, a group, minimisation *)
+Example C10_sbml_ok_witness :
+  sbml_ok to_dec wnum15 cur_clean cur_env cfg0 witness = true /\
+  roundtrip to_dec parse_dec wnum15 cur_clean cur_env cfg0 witness = Ok (norm to_dec cur_env witness).
+Proof. destruct sbml_ok_witness as [H1 [H2 _]]. split; assumption. Qed.
+
+Theorem C10_sbml_doc_roundtrip_refuted : ~ sbml_doc_roundtrip_statement.
+Proof. intros H. destruct need_rule_wf as [_ [_ [H3 _]]]. apply H3. apply H. Qed.
+
+(* refuted by the faithful model outside the findings known before (replayed on the code: corpus/C10) *)
+Theorem C10_sbml_numbers_refuted :
+  exists c m, RT c m <> Ok (NORM m) /\
+    exists m', RT c m = Ok m' /\
+      map (fun rr => r_lb (fst rr)) (sm_rxns m') = [Fin ((-6004799503160655) # 18014398509481984)] /\
+      map (fun rr => r_lb (fst rr)) (sm_rxns m) = [Fin ((-6004799503160661) # 18014398509481984)].
+Proof. exact sbml_numbers_refuted. Qed.
+
+Theorem C10_sbml_group_gene_member_refuted :
+  exists c m, RT c m = Err EKey /\
+    OKB c (mkSModel (sm_id m) (sm_name m) (sm_mets m) (sm_rxns m) (sm_genes m) (sm_comps m) (sm_max m)
+                    (map (fun g => mkGroup (gr_id g) (gr_name g) (gr_kind g)
+                                           (filter (fun p => negb (fst p =? 0)) (gr_members g))) (sm_groups m))) = true.
+Proof. exact sbml_group_gene_member_refuted. Qed.
+
+Theorem C10_sbml_duplicate_sid_refuted :
+  (exists c m d, OKB c m = true /\ m_write c m = Ok d /\ nodupb (core_sids d) = false /\
+                 str_mem (S "R_R1_lower_bound"%string) (map dr_id (d_rxns d)) = true /\
+                 str_mem (S "R_R1_lower_bound"%string) (map (fun p => fst (fst p)) (d_params d)) = true) /\
+  (exists c m d, OKB c m = true /\ m_write c m = Ok d /\ nodupb (core_sids d) = false /\
+                 str_mem (S "M_a"%string) (map fst (d_comps d)) = true /\ str_mem (S "M_a"%string) (map sp_id (d_species d)) = true).
+Proof. exact sbml_duplicate_sid_refuted. Qed.
